@@ -27,6 +27,11 @@ RULE = ('real compute_features_2d(axis=0) / BycycleGroup.fit on 1-7 pairwise dif
         'set of the pool; the candidates then hold the tables of every row under EVERY option set the object held '
         'during the history, and position i must hold the table of row i under the settings in force when the judged '
         'fit was called; the history (fits and assignments) is evaluated by the model of the object (second Coq stream); '
+        'the small option space is a COVERING ARRAY, not independent draws (block "cover"): entry point and option form '
+        '(function + dict / per-row list / no option argument, object + given settings / default settings) x {one row, several '
+        'rows} x return_samples {True, False} x {no progress bar, a tqdm bar} x {n_jobs = 1, several jobs}: all 80 cells on a '
+        'fresh object / a plain call in every run (x 3 in thorough; evidence: option_space_cells_covered); the reference of '
+        'every cell is compute_features of the row with the same return_samples, column set included; '
         'non-trivial = >= 3 rows and a perturbed schedule or a per-row list')
 ASSUMPTIONS = ['the statement about BycycleGroup.fit is applied to every call of fit, also on an object that was fitted before on '
                'arrays of another shape (the property does not restrict it to fresh objects); position-wise access is read as '
@@ -39,6 +44,7 @@ ASSUMPTIONS = ['the statement about BycycleGroup.fit is applied to every call of
                'the progress wrapper is exercised with a stand-in tqdm (iterates the wrapped iterable unchanged, as tqdm does); '
                'the real tqdm package is outside the check']
 TRUST = ['Pool.imap is modelled as a reorder buffer keyed by submission index']
+COVER = {}          # cell of the option space -> number of cases run in it
 PROGRESS = {'cases_with_progress': 0, 'stub_wrapped_the_result_iterator': 0, 'stub_total_equals_rows': 0,
             'stub_items_pulled_equals_rows': 0, 'by_module': {}}
 
@@ -49,13 +55,14 @@ def _mode(c):
     return 'list' if c.get('kw') is not None else 'dict'
 
 
-def _case(rng, rows, kwmode, via=None, refit=False):
+def _case(rng, rows, kwmode, via=None, refit=False, return_samples=None):
     kw = rng.sample(range(len(gl.KW_POOL)), rows) if kwmode == 'list' else None
     if via is None:
         via = 'func' if kwmode == 'list' else rng.choice(['func', 'func', 'group'])
     # a 'return_samples' entry inside option dicts: None = absent, else its value (documented: ignored)
     n_entries = rows if kwmode == 'list' else (1 if kwmode == 'dict' else 0)
-    return_samples = rng.random() < 0.7
+    drawn = rng.random() < 0.7
+    return_samples = drawn if return_samples is None else return_samples
     rs_key = [(rng.choice([not return_samples, not return_samples, return_samples]) if rng.random() < 0.35 else None)
               for _ in range(n_entries)]
     if via == 'group':
@@ -70,6 +77,44 @@ def _case(rng, rows, kwmode, via=None, refit=False):
             'progress': rng.choice([None, None, 'tqdm', 'tqdm.notebook']),
             'schedule': rng.choice(['reverse', 'first_slow', 'zigzag', 'none']),
             'return_samples': return_samples, 'layout': rng.choice(['C', 'C', 'F', 'view']), 'via': via}
+
+
+ENTRIES = [('dict', 'func'), ('list', 'func'), ('none', 'func'), ('dict', 'group'), ('none', 'group')]
+
+
+def _jobs_class(c):
+    return 'one' if c['n_jobs'] == 1 else 'several'
+
+
+def cover_key(c):
+    """Cell of the small option space a case falls into: (entry point + option form, one row / several rows,
+    return_samples, progress bar or not, one job / several jobs)."""
+    mode = _mode(c)
+    via = 'func' if mode == 'list' else c['via']
+    return (via + '/' + mode, 'one-row' if c['rows'] == 1 else 'rows', bool(c['return_samples']),
+            'bar' if c.get('progress') else 'nobar', _jobs_class(c))
+
+
+def _cover(rng, tier):
+    """The small option space as a covering array instead of independent draws: entry point and option form (5) x
+    {one row, several rows} x return_samples x {no progress bar, a tqdm bar} x {n_jobs = 1, several jobs} - the full
+    product (80 cells), every cell on a FRESH object / a plain function call; everything else (signals, option sets,
+    schedule, layout, the exact job count and bar module) drawn as in the random block."""
+    out = []
+    for rep in range(1 if tier == 'quick' else 3):
+        for kwmode, via in ENTRIES:
+            for one_row in (True, False):
+                for rs in (True, False):
+                    for bar in (False, True):
+                        for one_job in (True, False):
+                            rows = 1 if one_row else rng.choice([2, 3, 3, 4, 5])
+                            c = _case(rng, rows, kwmode, via, return_samples=rs)
+                            c['history'] = []
+                            c['progress'] = rng.choice(['tqdm', 'tqdm', 'tqdm.notebook']) if bar else None
+                            c['n_jobs'] = 1 if one_job else rng.choice([2, 3, rows + 1, rows + 3, -1] + [rows] * (rows > 1))
+                            c['cover'] = True
+                            out.append(c)
+    return out
 
 
 def cases(rng, tier):
@@ -89,6 +134,7 @@ def cases(rng, tier):
         if c['schedule'] == 'none' and rep % 4:
             c['schedule'] = ['reverse', 'first_slow', 'zigzag'][rep % 3]
         out.append(c)
+    out.extend(_cover(rng, tier))
     return out
 
 
@@ -116,6 +162,8 @@ def run_impl(c):
     err = None
     bg = None
     stub = orig = None
+    ck = '%s %s return_samples=%s %s jobs:%s' % cover_key(c)
+    COVER[ck] = COVER.get(ck, 0) + 1
     try:
         with contextlib.redirect_stdout(io.StringIO()):
             if c['via'] == 'group':
@@ -190,6 +238,8 @@ def run_impl(c):
     for i, df in enumerate(dfs):
         prefer = (_want_id(c, i), i, 0)
         placement.append(gl.match(df, cands, prefer) if hasattr(df, 'columns') else [gl.MISSING] * 3)
+        if placement[-1][0] == gl.MISSING and 'unmatched' not in out:
+            out['unmatched'] = 'the table at position %d: %s' % (i, gl.explain(df, cands, prefer))
     out['placement'] = [placement]
     out['n'] = len(dfs)
     if bg is not None:
@@ -215,8 +265,10 @@ def oracle(c, o):
     for i, t in enumerate(o['placement'][0]):
         want = [_want_id(c, i), i, 0]
         if t != want:
-            return 'position %d holds the analysis (options, row) = %s, expected %s%s%s' % (
-                i, t[:2], want[:2], ' [progress=%s]' % c['progress'] if c.get('progress') else '',
+            return 'position %d holds the analysis (options, row) = %s, expected %s%s%s%s' % (
+                i, t[:2], want[:2], ' (%d = no reference table matches: %s; return_samples=%s)' % (gl.MISSING, o['unmatched'], c['return_samples'])
+                if t[0] == gl.MISSING and o.get('unmatched') else '',
+                ' [progress=%s]' % c['progress'] if c.get('progress') else '',
                 ' [BycycleGroup.fit%s; option ids: %d / %d = the constructor\'s, 1001.. = after the n-th assignment block]'
                 % (gl.history_note(c.get('history')), gl.SHARED_ID, gl.NONE_ID) if gl.n_reassign(c.get('history')) else '')
     if 'object' in o:
@@ -239,7 +291,8 @@ def kind_of(c, o):
 
 
 def extra_evidence():
-    return {'progress_wrapper': dict(PROGRESS), 'completion_order_observed': dict(gl.STATS)}
+    return {'progress_wrapper': dict(PROGRESS), 'completion_order_observed': dict(gl.STATS),
+            'option_space_cells_covered': '%d of 80' % len(COVER), 'option_space_cells_least_cases': min(COVER.values()) if COVER else 0}
 
 
 def coq_case(c, o):
